@@ -86,6 +86,12 @@ func genCase(t *rapid.T) copyx.Case {
 	c := copyx.GenBase(t, gen.DAGOpts{MaxNodes: max, Referrers: rapid.Bool().Draw(t, "referrers"), Wide: rapid.Bool().Draw(t, "wide")}, srcKinds, dstKinds)
 	d := gen.Build(c.Specs)
 	c.API = rapid.SampledFrom([]string{"copygraph", "copy", "extcopygraph"}).Draw(t, "api")
+	if c.API == "extcopygraph" && gen.IsForeignMT(d.Nodes[c.Root].Desc.MediaType) {
+		// narrowing (as in C03): a start node that is itself a foreign layer is by
+		// design never transferred through the link that reaches it from the roots
+		// ExtendedCopyGraph finds, so "the start node arrives" is not promised
+		c.API = "copygraph"
+	}
 	c.Callbacks = rapid.Bool().Draw(t, "callbacks")
 	if c.API != "extcopygraph" {
 		c.Pre = copyx.GenPre(t, d, d.Reach(c.Root, true), c.Root)
